@@ -51,20 +51,28 @@ def add_rejections(h):
         f = GhostFile('store.nc', n, lambda k: ROW(to_z3(k)))
         ncf = make_ncfiles(h, I, [f], None)
         cache = make_cache(h, I, in_memory=False)
-        cache.attrs['__entries__'].append((0, TrajRec(ROW(z3.IntVal(0)), schema=7)))
+        # an append session that has just been opened has nothing in its cache yet; later the cache holds some trajectory
+        cache_empty = h.choice(2) == 1
+        h.ctx.named['cache_empty'] = z3.BoolVal(cache_empty)
+        if not cache_empty:
+            cache.attrs['__entries__'].append((0, TrajRec(ROW(z3.IntVal(0)), schema=7)))
         st = make_store(h, I, 'APPEND', ncf, cache, next_index=n, indexable=False)
         length0 = to_z3(f.length)
     rows0 = f.rows if f is not None else None
     entries0 = list(cache.attrs['__entries__'])
-    kind = h.choice(3)
+    # a store without a file also rejects a valid trajectory that no longer fits (nothing can be evicted to a file)
+    kind = h.choice(4 if (in_memory and not fresh) else 3)
     if fresh:
         kind = 2            # a new store takes its field sets and its use of flight identifiers from the first trajectory: only a missing required value is invalid for it
     h.ctx.named['rejection_kind'] = z3.IntVal(kind)
     indexable0 = st.attrs.get('indexable')
     if kind == 0:
-        t = FieldedTraj(h.int('new_traj_id'), schema=8)              # other field sets
+        t = FieldedTraj(h.int('new_traj_id'), schema=8, fieldsets={'base', 'other_fields'})              # other field sets
     elif kind == 1:
         t = FieldedTraj(h.int('new_traj_id'), schema=7, fid=h.int('new_flight_id'))   # inconsistent identifier use
+    elif kind == 3:
+        t = FieldedTraj(h.int('new_traj_id'), schema=7)
+        I.hooks['cache_full'] = True
     else:
         t = FieldedTraj(h.int('new_traj_id'), schema=7, missing_required=True)
 
@@ -95,7 +103,7 @@ def add_rejections(h):
                                                                    z3.Implies(z3.And(q >= 0, q < length0), f.rows(q) == rows0(q))),
                      note=repr(e.inst))
         return
-    h.fail('invalid-addition-is-rejected', ['different field sets', 'inconsistent identifier use', 'missing required value'][kind]
+    h.fail('invalid-addition-is-rejected', ['different field sets', 'inconsistent identifier use', 'missing required value', 'a trajectory that no longer fits'][kind]
            + ' was accepted' + (' by an in-memory store' if in_memory else ''))
 
 
@@ -127,6 +135,9 @@ def merge_interrupted(h):
     step = 1 + h.choice(nsteps + 1)
     gos.fault_at = step
     h.ctx.named['fault_at_step'] = z3.IntVal(step)
+    # the interruption is a failing call (OSError) or the user's interrupt arriving during that call (KeyboardInterrupt)
+    gos.fault_kind = ['OSError', 'KeyboardInterrupt'][h.choice(2)]
+    h.ctx.named['interrupted_by'] = z3.StringVal(gos.fault_kind)
     h.ctx.named['indexed'] = z3.BoolVal(indexed)
     I = h.I
     try:
@@ -298,6 +309,90 @@ def replay_add(payload):
                     ts.close()
                 except Exception:   # noqa
                     pass
+        # additions that can only be judged against the existing files: an append session straight after opening (empty
+        # cache) offered other field sets, and a species outside the file's species dimension
+        from AEIC.storage import Dimension, Dimensions, FieldMetadata, FieldSet
+        from AEIC.types import Species, SpeciesValues
+        if not FieldSet.known('c10_extra'):
+            FieldSet('c10_extra', x1=FieldMetadata(dimensions=Dimensions(Dimension.TRAJECTORY), description='', units=''))
+        if not FieldSet.known('c10_species'):
+            FieldSet('c10_species', e=FieldMetadata(dimensions=Dimensions(Dimension.TRAJECTORY, Dimension.SPECIES), description='', units=''))
+
+        def with_extra(i):
+            t = _mk(i)
+            t.add_fields(FieldSet.from_registry('c10_extra'))
+            t.x1 = float(i)
+            return t
+
+        def with_species(i, names):
+            t = _mk(i)
+            t.add_fields(FieldSet.from_registry('c10_species'))
+            t.e = SpeciesValues({Species[n]: float(i) for n in names})
+            return t
+        scenarios = [('append to a base-only file a trajectory with an extra field set', lambda i: _mk(i), with_extra(50), True),
+                     ('append to a file with an extra field set a base-only trajectory', with_extra, _mk(51), True),
+                     ('add a species outside the species dimension of the file', lambda i: with_species(i, ['CO2']), with_species(52, ['CO2', 'H2O']), False)]
+        for what, good, bad, reopen in scenarios:
+            TrajectoryStore.active_in_thread = None
+            path = os.path.join(tmp, f'late-{scenarios.index((what, good, bad, reopen))}.nc')
+            ts = TrajectoryStore.create(base_file=path)
+            ts.add(good(0))
+            ts.add(good(1))
+            if reopen:
+                ts.close()
+                TrajectoryStore.active_in_thread = None
+                ts = TrajectoryStore.append(base_file=path)
+            n0 = len(ts)
+            try:
+                ts.add(bad)
+                problems.append(f'{what}: accepted')
+            except (ValueError, RuntimeError):
+                pass
+            except Exception as e:   # noqa
+                problems.append(f'{what}: surfaced as {type(e).__name__}: {e}')
+            if len(ts) != n0 or ts._next_index != n0:
+                problems.append(f'{what}: length {len(ts)}, next index {ts._next_index} after the rejected addition, expected {n0}')
+            try:
+                idx = ts.add(good(2))
+                if idx != n0:
+                    problems.append(f'{what}: the next valid addition got index {idx}, expected {n0}')
+            except Exception as e:   # noqa
+                problems.append(f'{what}: the next valid addition is refused: {type(e).__name__}: {e}')
+            try:
+                ts.close()
+                TrajectoryStore.active_in_thread = None
+                with TrajectoryStore.open(base_file=path) as r:
+                    if len(r) != n0 + 1:
+                        problems.append(f'{what}: reopened store has {len(r)} trajectories, {n0 + 1} were added successfully')
+            except Exception as e:   # noqa
+                problems.append(f'{what}: close / reopen failed: {type(e).__name__}: {e}')
+        # an in-memory store that is full: the trajectory that no longer fits is rejected, the others stay
+        TrajectoryStore.active_in_thread = None
+        ts = TrajectoryStore.create(cache_size_mb=1)
+        kept = 0
+        try:
+            for i in range(40):
+                try:
+                    ts.add(_mk(i, n=1000))
+                    kept += 1
+                except RuntimeError:
+                    break
+            if kept == 40:
+                problems.append('in-memory store of 1 MiB accepted 40 trajectories of 1000 points')
+            if len(ts) != kept or ts._next_index != kept:
+                problems.append(f'full in-memory store: length {len(ts)}, next index {ts._next_index} after the rejected addition, {kept} were accepted')
+            for i in range(kept):
+                try:
+                    if ts[i].starting_mass != float(1000 + i):
+                        problems.append(f'full in-memory store: index {i} holds another trajectory after the rejected addition')
+                except Exception as e:   # noqa
+                    problems.append(f'full in-memory store: index {i} no longer readable after the rejected addition: {type(e).__name__}: {e}')
+                    break
+        finally:
+            try:
+                ts.close()
+            except Exception:   # noqa
+                pass
         return dict(reproduced=bool(problems), observed=problems[:6], required='rejected additions leave the store unchanged')
     finally:
         TrajectoryStore.active_in_thread = None
@@ -340,35 +435,35 @@ def replay_merge(payload):
                     ok = ok and len(ts) == 2
             return ok
         real_rename, real_mkdir = os.rename, os.mkdir
-        for step in range(1, 5):
-            d = os.path.join(tmp, f'case{step}')
+        for step, kind in [(s_, k_) for k_ in (OSError, KeyboardInterrupt) for s_ in range(1, 5)]:
+            d = os.path.join(tmp, f'case{step}{kind.__name__}')
             names = make_inputs(d)
             out = os.path.join(d, 'out.aeic-store')
             calls = dict(n=0)
 
-            def failing_rename(a, b, _c=calls, _s=step):
+            def failing_rename(a, b, _c=calls, _s=step, _k=kind):
                 _c['n'] += 1
                 if _c['n'] == _s:
-                    raise OSError('injected')
+                    raise _k('injected')
                 return real_rename(a, b)
             TrajectoryStore.active_in_thread = None
             with mock.patch('os.rename', failing_rename):
                 try:
                     TrajectoryStore.merge(out, list(names))
                     failed = False
-                except OSError:
+                except (OSError, KeyboardInterrupt):
                     failed = True
             if not failed:
                 continue
             if not all_readable(names, out):
-                problems.append(f'rename #{step} failed: some input no longer readable')
+                problems.append(f'rename #{step} interrupted by {kind.__name__}: some input no longer readable')
             if os.path.exists(os.path.join(out, 'metadata.json')):
-                problems.append(f'rename #{step} failed: metadata.json present')
+                problems.append(f'rename #{step} interrupted by {kind.__name__}: metadata.json present')
             TrajectoryStore.active_in_thread = None
             try:
                 TrajectoryStore.merge(out, list(names))
             except Exception as e:   # noqa
-                problems.append(f'rename #{step} failed: retry raised {type(e).__name__}: {e}')
+                problems.append(f'rename #{step} interrupted by {kind.__name__}: retry raised {type(e).__name__}: {e}')
         # refused merge (mixed indexability), then corrected retry
         d = os.path.join(tmp, 'refused')
         names = make_inputs(d)
